@@ -323,8 +323,8 @@ QUICK = {
     "C02": ["nest_cases_flat", "nest_cases_h20", "nest_cases_h21", "nest_cases_h10", "nest_cases_h10_h20", "cf_twins_nonvert_pp1", "cf_twins_vert_pp1", "cf_step_diff_nonvert", "cf_step_same_vert", "iter_order_n3", "iter_order_n4"],
     "C03": ["nest_index_unassigned_outin", "nest_index_unassigned_inout", "divide_contract_f64", "divide_ulp_f64", "dispatch_empty_subject", "dispatch_empty_clipping", "dispatch_empty_both"],
     "C04": ["int_classify_f32", "pi_point", "iter_order_n3", "iter_order_n4", "divide_contract_f64"],
-    "C05": ["cf_relational_plain", "cf_relational_same", "cf_relational_diff", "fill_ids_2h_2h", "fill_ids_1_1h"],
-    "C06": ["dispatch_predicate", "dispatch_empty_subject", "dispatch_empty_clipping", "dispatch_empty_both", "dispatch_union_multi1_multi1", "cf_twins_nonvert_pp1", "pi_ov_h0s"],
+    "C05": ["cf_relational_plain", "cf_relational_same", "fill_ids_2h_2h", "fill_ids_1_1h"],
+    "C06": ["dispatch_predicate", "dispatch_empty_subject", "dispatch_empty_clipping", "dispatch_empty_both", "dispatch_union_multi1_multi1", "cf_twins_nonvert_pp1"],
     "C07": ["dispatch_forward_poly_multi2", "dispatch_forward_multi2_multi1", "dispatch_forward_multi2_poly", "dispatch_named_methods", "fill_edge_f64", "fill_two_edges_real_first", "fill_ids_2h_2h", "fill_ids_1_1h", "fill_ids_0_2", "fill_ids_2_0"],
     "C08": ["int_scale_f32"],
     "C10": ["nextafter_f64", "nextafter_f32", "int_classify_f32", "int_agree", "signed_area_forwards_f32", "signed_area_forwards_f64", "signed_area_orientation"],
